@@ -427,6 +427,8 @@ def _legit_operand_error(msg):
 # ---------------------------------------------------------------------------------------------
 class _ShBytesIOMeta(type):
     def __instancecheck__(cls, obj):
+        if getattr(obj, "_is_file", False) and cls is ShBytesIO:
+            return False              # an opened file is a BufferedReader / BufferedRandom, not an io.BytesIO
         return type.__instancecheck__(cls, obj) or (cls is ShBytesIO and _isinstance(obj, _real_io.BytesIO))
 
 
@@ -814,6 +816,8 @@ FILES = {}
 
 
 class _ShFile(ShBytesIO):
+    _is_file = True
+
     def __init__(self, name, mode):
         if "r" in mode and "+" not in mode and name not in FILES:
             raise FileNotFoundError(2, "No such file or directory", name)
